@@ -308,7 +308,7 @@ func runHostile(seed int64, tier, vectors, out string, shards, only int) {
 	var expanded []item
 	var combos [][2]int
 	for i, it := range items {
-		if it.mut == "big" {
+		if it.mut == "big" || it.mut == "replay" {
 			for a := range hostileAPIs {
 				for tm := 0; tm < 2; tm++ {
 					expanded = append(expanded, it)
